@@ -280,6 +280,7 @@ def check(prog, rep):
     rule_peptide_pointers(prog, rep, t)
     rule_completion_reads_occupied(prog, rep)
     rep.guarded(rule_water_completion, prog, rep)
+    rep.guarded(rule_carboxyl_names, prog, rep)
 
 
 def rule_peptide_pointers(prog, rep, t, rid="R6"):
@@ -678,3 +679,74 @@ def rule_water_completion(prog, rep):
         r.add(f"water|{label}", label not in bad, f"water starting with {label}: " + (bad.get(label) or "H1 and H2 present, all positions distinct under the "
               "12 scripted neighbourhoods"), where)
     r.info["model_runs"] = n_runs
+
+
+def rule_carboxyl_names(prog, rep):
+    """Carboxylic.rename - the last step of placing the acid hydrogen of ASH / GLH - is evaluated on model residues: the hydrogen that survived
+    sits on either oxygen, one or both oxygens had been tried, and a leftover hydrogen of the other name may still be in the residue.  The force
+    field and the template bond the hydrogen to the oxygen the optimisation table names as its parent: after the renaming the hydrogen's name
+    must be a name of that table whose parent is the name of the oxygen it is attached to, and the residue's name index must agree with the atoms."""
+    import itertools
+    from ..guards import Flow, Obj
+    from ..objinterp import ObjRunner
+    r = rep.rule("R10", "acid hydrogen: after the final renaming the hydrogen carries the name whose template parent is the oxygen it sits on", floor=12)
+    fi = prog.func("hydrogens/structures.py", "Carboxylic.rename")
+    where = f"pdb2pqr/hydrogens/structures.py:{fi.node.lineno} (Carboxylic.rename)"
+    coords = {"coords": lambda a_: [a_["x"], a_["y"], a_["z"]]}
+    for (resname, stem, oxy), on, tried, ext, leftover in itertools.product((("ASH", "HD", "OD"), ("GLH", "HE", "OE")), ("1", "2"), ("both", "one"), ("1", "2"), (False, True)):
+        if leftover and tried == "both":
+            continue
+        res = Obj({"__class__": "ASP" if resname == "ASH" else "GLU", "name": resname, "atoms": [], "map": {}, "fixed": 0, "chain_id": "A", "res_seq": 5, "ins_code": ""})
+
+        def atom(name, k, res=res):
+            a = Obj({"__class__": "Atom", "name": name, "x": float(k), "y": 0.5 * k, "z": -1.0 * k, "bonds": [], "residue": res, "reference": None, "element": name[0],
+                     "added": 0, "cell": None, "res_name": resname, "chain_id": "A", "res_seq": 5, "ins_code": "", "type": "ATOM", "__props__": coords})
+            res["atoms"].append(a)
+            res["map"][name] = a
+            return a
+
+        carbon = atom("CG" if resname == "ASH" else "CD", 0)
+        o = {"1": atom(f"{oxy}1", 1), "2": atom(f"{oxy}2", 2)}
+        for x in o.values():
+            x["bonds"].append(carbon)
+            carbon["bonds"].append(x)
+        hyd = atom(f"{stem}{on}{ext}", 3)
+        hyd["bonds"].append(o[on])
+        o[on]["bonds"].append(hyd)
+        parent = o[on]
+        other = "2" if on == "1" else "1"
+        if leftover:
+            left = atom(f"{stem}{other}", 4)
+            left["bonds"].append(o[other])
+            o[other]["bonds"].append(left)
+        optmap = {f"{stem}2": Obj({"__class__": "OptimizationHolder", "name": f"{stem}2", "bond": f"{oxy}2"}),
+                  f"{stem}1": Obj({"__class__": "OptimizationHolder", "name": f"{stem}1", "bond": f"{oxy}1"})}
+        table = {k: v["bond"] for k, v in optmap.items()}
+        this = Obj({"__class__": "Carboxylic", "residue": res, "optinstance": Obj({"__class__": "OptimizationHolder", "map": optmap}),
+                    "routines": Obj({"__class__": "<routines>", "cells": Obj({"__class__": "<cells>"})}),
+                    "atomlist": [o["1"], o["2"]] if tried == "both" else [o[on]], "hlist": [hyd], "hbonds": []})
+
+        def extra(runner, interp, call, args, kw):
+            if isinstance(call.func, ast.Attribute) and call.func.attr in ("add_cell", "remove_cell"):
+                return None
+            return NotImplemented
+
+        label = f"{resname}: {hyd['name']} on {parent['name']}, {tried} oxygen(s) tried" + (f", a {stem}{other} still in the residue" if leftover else "")
+        run = ObjRunner(prog, "hydrogens/structures.py", extra_hook=extra)
+        try:
+            run.call(this, "rename", hyd)
+        except Flow as fl:
+            r.bad(f"rename|{label}", f"{label}: rename stops with {fl.value}", where)
+            continue
+        problems = []
+        if hyd["name"] not in table:
+            problems.append(f"the hydrogen is called {hyd['name']!r}, which the optimisation table does not know")
+        elif table[hyd["name"]] != parent["name"]:
+            problems.append(f"the hydrogen is called {hyd['name']} (template parent {table[hyd['name']]}) but sits on the oxygen now called {parent['name']}")
+        stale = sorted(k for k, a in res["map"].items() if a["name"] != k)
+        if stale or "FLIP" in res["map"]:
+            problems.append(f"name index out of step with the atoms: {stale or ['FLIP']}")
+        if sorted(x["name"] for x in o.values()) != [f"{oxy}1", f"{oxy}2"]:
+            problems.append(f"the oxygens are called {[x['name'] for x in o.values()]}")
+        r.add(f"rename|{label}", not problems, f"{label}: ends as {hyd['name']} on {parent['name']}" if not problems else f"{label}: " + "; ".join(problems) +
+              " -- the added hydrogen is then not at its template parent", where)
